@@ -164,8 +164,106 @@ def _alarm(signum, frame):
     raise ItemTimeout()
 
 
+# ---- which lines of the implementation the runs of this check execute (sys.monitoring, Python >= 3.12) -------------------
+# Every process that runs the real code records the (file, line) pairs of REPO/droop it executes; each location reports once and
+# is then disabled, so the cost is negligible.  Workers append their new hits to a file per process; the main process merges
+# them into the evidence (`implementation_lines`): the reader sees which statements of the code the comparison has never seen.
+_LC = dict(pid=None, hits=set(), flushed=0)
+LINECOV_DIR = os.path.join(WORK, 'linecov-%d' % os.getpid())      # evaluated in the main process; inherited by fork
+
+
+def linecov_start():
+    if os.environ.get('VERIF_LINECOV', '1') != '1' or not hasattr(sys, 'monitoring'):
+        return
+    if _LC['pid'] == os.getpid():
+        return
+    _LC['pid'] = os.getpid(); _LC['hits'] = set(); _LC['flushed'] = 0
+    mon = sys.monitoring
+    prefix = os.path.join(os.path.realpath(REPO), 'droop') + os.sep
+    hits = _LC['hits']
+
+    def on_line(code, line):
+        fn = code.co_filename
+        if fn.startswith(prefix) or os.path.realpath(fn).startswith(prefix):
+            hits.add((fn[len(prefix):] if fn.startswith(prefix) else os.path.realpath(fn)[len(prefix):], line))
+        return mon.DISABLE
+    try:
+        try:
+            mon.use_tool_id(mon.COVERAGE_ID, 'verif-linecov')
+        except ValueError:
+            pass
+        mon.register_callback(mon.COVERAGE_ID, mon.events.LINE, on_line)
+        mon.set_events(mon.COVERAGE_ID, mon.events.LINE)
+        mon.restart_events()
+    except Exception:
+        _LC['pid'] = None
+
+
+def linecov_flush():
+    if _LC['pid'] != os.getpid() or len(_LC['hits']) == _LC['flushed']:
+        return
+    try:
+        os.makedirs(LINECOV_DIR, exist_ok=True)
+        with open(os.path.join(LINECOV_DIR, '%d.txt' % os.getpid()), 'w') as f:
+            f.write('\n'.join('%s:%d' % h for h in sorted(_LC['hits'])))
+        _LC['flushed'] = len(_LC['hits'])
+    except Exception:
+        pass
+
+
+def _executable_lines(path):
+    """line numbers that carry code, from the compiled module (all nested code objects), docstring-only lines excluded"""
+    try:
+        top = compile(open(path, encoding='utf-8').read(), path, 'exec')
+    except Exception:
+        return set()
+    out = set(); todo = [top]
+    while todo:
+        c = todo.pop()
+        for _, _, ln in c.co_lines():
+            if ln is not None and ln > 0:
+                out.add(ln)
+        todo.extend(k for k in c.co_consts if hasattr(k, 'co_lines'))
+    return out
+
+
+def linecov_report(modules=None):
+    """merge the per-process hit files; per implementation file: executable lines, lines executed, and the lines never executed"""
+    linecov_flush()
+    hits = set()
+    if os.path.isdir(LINECOV_DIR):
+        for f in os.listdir(LINECOV_DIR):
+            for l in open(os.path.join(LINECOV_DIR, f)).read().split('\n'):
+                if ':' in l:
+                    a, b = l.rsplit(':', 1); hits.add((a, int(b)))
+    if not hits:
+        return None
+    root = os.path.join(os.path.realpath(REPO), 'droop')
+    files = sorted({h[0] for h in hits})
+    rep = {}
+    for rel in files:
+        if modules and not any(rel.startswith(m) for m in modules):
+            continue
+        ex = _executable_lines(os.path.join(root, rel))
+        got = {ln for f, ln in hits if f == rel}
+        miss = sorted(ex - got)
+        rep[rel] = dict(executable=len(ex), executed=len(ex & got), never_executed=_ranges(miss))
+    return rep
+
+
+def _ranges(nums):
+    out = []; i = 0
+    while i < len(nums):
+        j = i
+        while j + 1 < len(nums) and nums[j + 1] == nums[j] + 1:
+            j += 1
+        out.append(str(nums[i]) if i == j else '%d-%d' % (nums[i], nums[j])); i = j + 1
+    return ','.join(out)
+
+
 def _guarded(args):
     func, item, limit = args
+    linecov_start()
     signal.signal(signal.SIGALRM, _alarm)
     signal.setitimer(signal.ITIMER_REAL, limit)
     try:
@@ -174,6 +272,7 @@ def _guarded(args):
         return ('TIMEOUT', None)
     finally:
         signal.setitimer(signal.ITIMER_REAL, 0)
+        linecov_flush()
 
 
 _POOL = None
@@ -202,6 +301,7 @@ def close_pool():
     if _POOL is not None:
         _POOL.terminate(); _POOL = None
     shutil.rmtree(os.path.join(WORK, 'pycache-%d' % os.getpid()), ignore_errors=True)
+    shutil.rmtree(LINECOV_DIR, ignore_errors=True)
 
 
 # ------------------------------------------------------------------------------------------------
